@@ -95,7 +95,11 @@ def gen(r):
             m = r.randint(1, 3)
             chunk = [x for x in stream[i:i + m] if isinstance(x, str)]
             cnt = collections.Counter(chunk)
-            if cnt:
+            if cnt and r.random() < 0.4:
+                # mapping AND keywords in one call, sharing keys
+                feed.append(['update-map-kw', [[k, c] for k, c in cnt.items()], [[k, 1 + (c % 2)] for k, c in list(cnt.items())[:2]]])
+                # the extra keyword additions are real additions too: account for them in the stream order
+            elif cnt:
                 feed.append(['update-kw', [[k, c] for k, c in cnt.items()]])
             else:
                 feed.extend(['add', x] for x in stream[i:i + m])
@@ -126,6 +130,16 @@ def views_problem(tc, st):
     if tc.get('zz-absent', 7) != 7 or 'zz-absent' in tc:
         return 'views', 'absent key visible'
     mc = tc.most_common()
+    # the caller may do what it likes with a returned list; later answers must not change
+    scrib = tc.most_common()
+    if isinstance(scrib, list):
+        scrib.reverse()
+        del scrib[:1]
+    for lst in (tc.items(), tc.keys(), tc.values()):
+        if isinstance(lst, list):
+            del lst[:]
+    if tc.most_common() != mc or tc.items() != items:
+        return 'views:result-aliased', 'mutating a list returned by most_common()/items()/keys()/values() changed later answers'
     if sorted(map(repr, mc)) != sorted(map(repr, items)):
         return 'most_common:n-omitted', 'most_common() = %r..., items() has %d pairs' % (mc[:5], len(items))
     if [c for _, c in mc] != sorted(d.values(), reverse=True):
@@ -147,6 +161,7 @@ def check(c, st):
     exact = collections.Counter()
     total = 0
     nsteps = sum(1 if f[0] == 'add' else max(1, len(f[1])) for f in c['feed'])
+    how = 'add'
     every = 1 if nsteps <= 5000 else 97
     dropped = False
     size_violated = None
@@ -232,6 +247,16 @@ def check(c, st):
                     total += n
                     for _ in range(n):
                         ref_add(k)
+            elif how == 'update-map-kw':
+                m = {k: n for k, n in f[1]}
+                kwm = {k: n for k, n in f[2]}
+                tc.update(m, **kwm)           # the same key may come both ways: both counts are additions
+                for mm in (m, kwm):
+                    for k, n in mm.items():
+                        exact[k] += n
+                        total += n
+                        for _ in range(n):
+                            ref_add(k)
             else:
                 m = {k: n for k, n in f[1]}
                 tc.update([], **m)
